@@ -148,8 +148,12 @@ where
     usize: AsPrimitive<LexerTypesT::StorageT>,
     LexerTypesT::StorageT: TryFrom<usize>,
 {
+    /// Parse `src` as a lex specification, starting at byte offset `start` (i.e. after any
+    /// `%grmtools` section). `src` must be the whole of the user's text so that every span
+    /// produced indexes the text the user wrote.
     pub(super) fn new_with_lex_flags(
         src: String,
+        start: usize,
         mut lex_flags: LexFlags,
     ) -> LexBuildResult<LexParser<LexerTypesT>> {
         let LexFlags {
@@ -190,7 +194,7 @@ where
                 Span::new(0, 0),
             )],
         };
-        p.parse()?;
+        p.parse(start)?;
         Ok(p)
     }
 
@@ -202,9 +206,9 @@ where
         }
     }
 
-    fn parse(&mut self) -> LexBuildResult<usize> {
+    fn parse(&mut self, start: usize) -> LexBuildResult<usize> {
         let mut errs = Vec::new();
-        let mut i = match self.parse_declarations(0, &mut errs) {
+        let mut i = match self.parse_declarations(start, &mut errs) {
             Ok(i) => i,
             Err(e) => {
                 errs.push(e);
